@@ -456,7 +456,7 @@ def seq(items, sep=','):
 
 def table_stmt(cfg, name, attrs):
     return [kw('CREATE', cfg), kw('TABLE', cfg), ident(name), P['(']] + \
-        seq([[ident(a), ident(t)] for a, t in attrs]) + [P[')'], P[';']]
+        seq([[ident(a), (t, 'i', ('t',))] for a, t in attrs]) + [P[')'], P[';']]
 
 
 def index_stmt(cfg, iname, cls, attrs):
@@ -633,6 +633,9 @@ def render(toks, layout, trailer=True):
     return ''.join(out)
 
 
+RETYPE_NAMES = ['STRING', 'integer', 'Real', 'BOOLEAN', 'unique_id', 'SOME_TYPE', 'inst_ref', 'date', 'int', 'void']
+
+
 def flip_alternatives(tag, negative):
     '''Replacement token lists, one per other lexical class.'''
     alts = [('s', [("'s'", 's')]), ('n', [('7', 'n')]), ('f', [('2.5', 'f')]), ('g', [(UUID % 77, 'g')]),
@@ -661,6 +664,13 @@ def mutations(toks, layout):
             for name, alt in flip_alternatives(t[1], neg):
                 new = [(lx, tg, None) for lx, tg in alt]
                 yield ('flip', i, name), render(toks[:start] + new + toks[i + 1:], layout), start > first_semi
+    # every declared type replaced by every other core type (the values then do not fit) and by names outside the core types
+    # (on plain, identifying and referential attributes alike)
+    for i, t in enumerate(toks):
+        if isinstance(t[2], tuple) and t[2][0] == 't':
+            for name in RETYPE_NAMES:
+                if name.upper() != t[0].upper():
+                    yield ('retype', i, name), render(toks[:i] + [(name, 'i', None)] + toks[i + 1:], layout), i > first_semi
     # every truncation; "after the first statement" = cut behind the first ';' of the text proper
     first_end = len(render(toks[:first_semi + 1], layout, trailer=False))
     for k in range(len(base)):
